@@ -91,3 +91,29 @@ func driveRefine(c *Ctx) error {
 		return nil
 	})
 }
+
+// rangeof: what Value.Range() reports for ANY unmarked value (known, null, unknown, sets
+// holding unknown members), through the public accessors, and Includes(candidate).
+func init() { register("rangeof", driveRangeOf) }
+
+func driveRangeOf(c *Ctx) error {
+	return readLines(c.In, func(j J) error {
+		cands := concretizeArgs(asL(j["cands"]), 0)
+		for _, vj := range asL(j["vals"]) {
+			v := Concretize(asJ(vj), 0)
+			ev := J{"ev": "rangeof", "v": Project(v), "cands": projectArgs(cands)}
+			p, msg := guard(func() {
+				r := v.Range()
+				ev["rng"] = ProjectRange(r, v.Type())
+				ev["tc"] = ProjectType(r.TypeConstraint())
+				ev["cbn"] = r.CouldBeNull()
+			})
+			if p {
+				ev["panic"] = trunc(msg)
+			}
+			ev["incl"] = includes(v, cands)
+			c.Out.Emit(ev)
+		}
+		return nil
+	})
+}
